@@ -3,7 +3,7 @@
    weights with positive total, all admissible parameters. *)
 From Coq Require Import Reals List Lra.
 From ADV Require Import Base.Num C16.Model C16.ModelHmm C16.Spec C16.ProofsMax C16.ProofsEM C16.ProofsModel
-  C16.ProofsBW C16.ProofsBW2 C16.ProofsBW3 C16.ProofsClamp.
+  C16.ProofsBW C16.ProofsBW2 C16.ProofsBW3 C16.ProofsClamp C16.ModelVec C16.ProofsVec.
 Import ListNotations.
 Open Scope R_scope.
 
@@ -219,3 +219,94 @@ Theorem em_normal_component_mstep_is_exact : forall n (r x : nat -> R) smin mu s
   comp_ll n r (fun l => normal_pdf mu sigma (x l))
   <= comp_ll n r (fun l => normal_pdf (mle_mu d) (mle_sigma smin d) (x l)).
 Proof. exact em_normal_mstep_is_exact. Qed.
+
+(* ------------------------------------------------------------------------------------------------------------ *)
+(* Round 3: negative binomial, product estimators, vector normal.                                                *)
+
+(* (1.nb) negative binomial with r fixed (negativeBinomial.go is a closed form, not a numeric estimator):
+   p* = sum w x / (r W + sum w x) beats every p in (0,1) *)
+Theorem negative_binomial_estimate_is_maximiser : forall r d,
+  nonneg_w d -> nonneg_x d -> 0 < sumw d -> 0 < r ->
+  forall p, 0 < p -> p < 1 -> ll_negbin d r p <= ll_negbin d r (mle_negbin r d).
+Proof. exact negbin_max. Qed.
+(* ... and the closed form the correspondence executes (cf_negbin at R) is that p* *)
+Theorem negative_binomial_model_is_the_closed_form : forall r d v,
+  cf_negbin NumR r d = Some v -> 0 < r * sumw d + sumwx d /\ v = mle_negbin r d.
+Proof. exact cf_negbin_R. Qed.
+
+(* (1.id) scalarId (model [scalar_id_est]: component i estimates on column i with the same log-weights): whenever
+   every component estimator returns a maximiser of its own weighted log-likelihood (theorems (1)), the returned
+   tuple maximises the log-likelihood of the product distribution (= sum of the component log-likelihoods) over
+   all admissible tuples; for every number of components, data set and component families *)
+Theorem scalar_id_estimate_is_componentwise_maximiser :
+  forall (X P G : Type) (ll : nat -> list X -> G -> P -> R) (adm : nat -> P -> Prop) (xs : list (list X)) (g : G)
+         (ests : list (list X -> G -> option P)) ps,
+  (forall i est col p, nth_error ests i = Some est -> column i xs = Some col -> est col g = Some p ->
+     forall q, adm i q -> ll i col g q <= ll i col g p) ->
+  scalar_id_est ests xs g = Some ps ->
+  length ps = length ests /\
+  forall qs, length qs = length ests -> (forall i q, nth_error qs i = Some q -> adm i q) ->
+    prod_ll ll xs g qs <= prod_ll ll xs g ps.
+Proof. intros X P G ll adm xs g. exact (scalar_id_max ll adm xs g). Qed.
+
+(* (1.iid) scalarIid (model [scalar_iid_est]: ONE estimator on the coordinates of all vectors, pooled in data order):
+   the i.i.d. log-likelihood of the vectors is the scalar log-likelihood of the pooled data (lsum over a
+   concatenation is the sum of the lsums), so the scalar maximiser is the maximiser *)
+Theorem scalar_iid_estimate_is_pooled_maximiser :
+  forall (X P G : Type) (ll : list X -> G -> P -> R) (adm : P -> Prop) (est : list X -> G -> option P) xs g p,
+  (forall col p, est col g = Some p -> forall q, adm q -> ll col g q <= ll col g p) ->
+  scalar_iid_est est xs g = Some p -> forall q, adm q -> ll (concat xs) g q <= ll (concat xs) g p.
+Proof. intros X P G. exact (@scalar_iid_max X P G). Qed.
+Theorem iid_loglikelihood_is_additive_over_vectors : forall f (vs : list wdata),
+  lsum f (concat vs) = fold_right (fun v s => lsum f v + s) 0 vs.
+Proof. exact lsum_concat. Qed.
+
+(* (1.vn) vector normal.  n observations x l in R^d with weights w l, candidate (mu, precision matrix L = Sigma^-1,
+   ld = ln det L); vll = weighted log-likelihood up to the constant.  The estimator returns the weighted mean
+   [vmean] and the moment matrix [vcov] with diagonal entries below SigmaMin overwritten by SigmaMin. *)
+
+(* the mean: for EVERY dimension, data set, weights and EVERY covariance (positive semi-definite precision) *)
+Theorem vector_normal_mean_is_maximiser_for_every_covariance : forall n d w x ld L mu,
+  0 < rsum n w -> psd d L -> vll n d w x ld L mu <= vll n d w x ld L (vmean n w x).
+Proof. exact vnormal_mean_max. Qed.
+
+(* dimension 1 coincides with the scalar theorem, the clamp acting on the VARIANCE *)
+Theorem vector_normal_dimension_one_is_constrained_maximiser : forall smin dt,
+  nonneg_w dt -> 0 < sumw dt -> 0 <= smin -> 0 < mle_var_clamped smin dt ->
+  forall mu v, 0 < v -> smin <= v -> ll_normal_var dt mu v <= ll_normal_var dt (mle_mu dt) (mle_var_clamped smin dt).
+Proof. exact vnormal_dim1_max. Qed.
+
+(* diagonal covariances, every dimension: (mean, clamped diagonal of the moment matrix) is the constrained optimum *)
+Theorem vector_normal_diagonal_is_constrained_maximiser : forall n d w x smin,
+  (forall l, (l < n)%nat -> 0 <= w l) -> 0 < rsum n w -> 0 <= smin ->
+  (forall i, (i < d)%nat -> 0 < Rmax (vcov n w x i i) smin) ->
+  forall mu v, (forall i, (i < d)%nat -> 0 < v i /\ smin <= v i) ->
+    vll_diag n d w x mu v <= vll_diag n d w x (vmean n w x) (fun i => Rmax (vcov n w x i i) smin).
+Proof. exact vnormal_diagonal_max. Qed.
+
+(* full covariance, every dimension — PARTIAL: reduced to the matrix inequality ld - tr(L S) <= ld' - tr(L' S)
+   (for L' = S^-1: ln det(L S) <= tr(L S) - d), which is not proved for general d *)
+Theorem vector_normal_full_covariance_maximiser_partial : forall n d w x ld L ld' L' mu,
+  0 < rsum n w -> psd d L ->
+  ld - trLS d L (vcov n w x) <= ld' - trLS d L' (vcov n w x) ->
+  vll n d w x ld L mu <= vll n d w x ld' L' (vmean n w x).
+Proof. exact vnormal_full_max_partial. Qed.
+
+(* ... and with an active clamp on correlated data the returned matrix is NOT the optimum under Sigma_ii >= SigmaMin
+   (finding F-VNORMAL-CLAMP): the model returns [[4,2],[2,2]] for the data (2,1), (-2,-1) with SigmaMin = 2; the
+   admissible [[10,4],[4,2]] (same determinant) has the strictly higher likelihood *)
+Theorem vector_normal_diagonal_clamp_is_constrained_maximiser_refuted :
+  vn_est NumR exp 2 2 [[2; 1]; [-2; -1]] None = ([0; 0], [[4; 2]; [2; 2]]) /\
+  (4 * cw_L 0 0 + 2 * cw_L 1 0 = 1 /\ 4 * cw_L 0 1 + 2 * cw_L 1 1 = 0 /\ 2 * cw_L 0 0 + 2 * cw_L 1 0 = 0 /\ 2 * cw_L 0 1 + 2 * cw_L 1 1 = 1) /\
+  (10 * cw_L' 0 0 + 4 * cw_L' 1 0 = 1 /\ 10 * cw_L' 0 1 + 4 * cw_L' 1 1 = 0 /\ 4 * cw_L' 0 0 + 2 * cw_L' 1 0 = 0 /\ 4 * cw_L' 0 1 + 2 * cw_L' 1 1 = 1) /\
+  4 * 2 - 2 * 2 = 10 * 2 - 4 * 4 /\
+  forall ld, vll 2 2 cw_w cw_x ld cw_L (fun _ => 0) < vll 2 2 cw_w cw_x ld cw_L' (fun _ => 0).
+Proof. exact vnormal_clamp_refuted. Qed.
+
+Example vector_normal_hypotheses_satisfiable :
+  let L := fun i j : nat => if Nat.eqb i j then 1 else 0 in
+  psd 2 L /\ 0 < rsum 3 (fun _ => 1).
+Proof.
+  simpl. split; [|lra]. intros u. unfold quad, bil. simpl.
+  pose proof (Rle_0_sqr (u 0%nat)). pose proof (Rle_0_sqr (u 1%nat)). unfold Rsqr in *. lra.
+Qed.
